@@ -30,7 +30,9 @@ Originals ==
     WireMsg(0, NOBLE, "d1", 2, ModulePadded, M1, Zero32, BurnBody(7, KTok(MINT), B("j", "x1"), 2, Pad("a1"))),
     DepOutMsg("a1", 0, 2),
     WireMsg(0, NOBLE, "d1", 3, Pad("a1"), R1, B("j", "x1"), Raw(1, 10)) }
-NewCallers == IF Thorough THEN {Zero32, B("j", "x2"), Empty, Bytes(31, "junk")} ELSE {Zero32, B("j", "x2"), Empty}
+\* (over-long callers: nothing but a length check keeps their tail from spilling into the fields behind them)
+NewCallers == IF Thorough THEN {Zero32, B("j", "x2"), Empty, Bytes(31, "junk"), Bytes(33, "junk"), Bytes(64, "junk"), Bytes(96, "junk")}
+                          ELSE {Zero32, B("j", "x2"), Empty, Bytes(33, "junk"), Bytes(64, "junk")}
 NewBodies  == IF Thorough THEN {Raw(2, 12), Raw(1, 0), Raw(2, 200), Raw(2, 201), DepBody("a1", 3)} ELSE {Raw(2, 12), Raw(2, 201), DepBody("a1", 3)}
 NewRcpts   == IF Thorough THEN {B("j", "x2"), Pad("a2"), Zero32, Empty, Bytes(31, "junk"), Bytes(33, "junk"), Bytes(64, "junk"), Bytes(96, "junk")}
                           ELSE {B("j", "x2"), Zero32, Bytes(31, "junk"), Bytes(64, "junk")}
